@@ -414,8 +414,10 @@ func genProtoKey(t *rapid.T, prefix string, special bool) []byte {
 
 func genProtoValue(t *rapid.T, cfg *ProtoCfg) verifkit.ValSpec {
 	v := verifkit.ValSpec{}
-	v.Class = rapid.SampledFrom([]string{"crlf", "text", "random", "const", "decimal", "mix", "periodic"}).Draw(t, "class")
-	switch rapid.IntRange(0, 7).Draw(t, "sizeclass") {
+	v.Class = rapid.SampledFrom([]string{"crlf", "text", "random", "const", "decimal", "mix", "periodic", "tailrand", "headrand"}).Draw(t, "class")
+	switch rapid.IntRange(0, 8).Draw(t, "sizeclass") {
+	case 8: // beyond the 10 KB compression probe: the probe and the whole value may compress differently (head/tail classes)
+		v.Size = rapid.IntRange(10241, 60000).Draw(t, "size")
 	case 0:
 		v.Size = 0
 	case 1:
@@ -613,6 +615,9 @@ func protoLabels(pc *ProtoCase, labels map[string]bool) []string {
 			}
 			if isStorage(c.Verb) && int64(len(c.value())) > pc.Cfg.BodyInC {
 				labels["value_in_c_memory"] = true
+			}
+			if isStorage(c.Verb) && len(c.value()) > 10240 && (c.V.Class == "tailrand" || c.V.Class == "headrand" || c.V.Class == "mix") {
+				labels["value>10K_uneven_compressibility"] = true
 			}
 		}
 	}
